@@ -89,6 +89,16 @@ func c14R4(c *Ctx) {
 					{"parsed-ok", cfgx.Equals("(" + pv + "#1 == nil)")},
 					{"cmd-type", cfgx.Equals(`(a1.CmdType == "changeValidator")`)},
 				})
+				// replicated effects must not depend on node-local data (the p2p peer table)
+				if fld != "DisconnectedPeers" {
+					local := ""
+					for _, g := range f.AllGuardForms(st) {
+						if strings.Contains(g, "a0.sw") || strings.Contains(g, "gemmill/p2p.") || strings.Contains(g, ".NodeInfo.") {
+							local = g
+						}
+					}
+					c.R.Ob(rule, "record-"+fld+":independent-of-local-peer-table", local == "", c.Pos(st), fname(f), "the validator-set change / refuse-list entry is recorded only under a condition over this node's own connections ("+shorten(local)+"): replicas with different peers apply different validator sets")
+				}
 			}
 		}
 		if n < 3 {
